@@ -183,8 +183,9 @@ def run(ctx):
     for chunk in [recs[a:a + 100] for a in range(0, len(recs), 100)]:
         for rid, clause in ctx.validate('Trace_Clusters', 'Trace_Clusters.cfg', chunk, timeout=2400):
             r = recs[rid - 1]
-            ctx.violation('trace', 'recorded output rejected by the specification: clause %s (n=%d)'
-                          % (clause, len(r.get('v', r.get('sc')))), dict(record=r, clause=clause))
+            ctx.violation('trace', 'recorded %s output rejected by the specification: clause %s (n=%d)'
+                          % (r.get('kind'), clause, len(r.get('v') or r.get('sc') or r.get('out') or [])),
+                          dict(record=r, clause=clause))
     # U: the calls the repository's own tests make into the utilities, judged by the same predicates
     up = ctx.upstream(UPSTREAM_TESTS, 'Clusters')
     if up:
